@@ -229,7 +229,12 @@ class SymArray:
             if self.ndim == 2:
                 rows = self.d[i]
                 return SymArray(rows, self.dtype_tag, (len(rows), self._ncols))
-            return SymArray(self.d[i], self.dtype_tag)
+            r = SymArray(self.d[i], self.dtype_tag)
+            if i.step is not None and int(i.step) < 0:
+                # a negative-stride view: logical order as sliced, memory order the reverse (what np.nditer / ravel(order="K")
+                # and anything else that walks memory sees); copies and fresh results are contiguous again
+                r._mem = list(range(len(r.d) - 1, -1, -1))
+            return r
         if isinstance(i, SymArray):
             if i.dtype_tag == "bool":
                 idx = self._mask_indices(i)
@@ -509,6 +514,16 @@ class SymArray:
     def iloc(self):
         """A column of a default-index frame is handed out as the array itself: positional access is plain indexing."""
         return self
+
+    def reshape(self, *shape):
+        if len(shape) == 1 and isinstance(shape[0], (tuple, list)):
+            shape = tuple(shape[0])
+        shape = tuple(int(v) for v in shape)
+        if self.ndim == 1 and shape in ((len(self.d),), (-1,)):
+            return SymArray(list(self.d), self.dtype_tag)
+        if self.ndim == 1 and shape == () and len(self.d) == 1:
+            return self.d[0]
+        raise Unsupported(f"ndarray.reshape{shape}")
 
     def squeeze(self, axis=None):
         """Drop every axis of length one (a length-1 array becomes 0-d, i.e. a scalar to every later use)."""
@@ -1341,6 +1356,19 @@ class NP:
 
     def flatnonzero(self, a):
         return self.nonzero(a)[0]
+
+    def nditer(self, a, flags=(), **kw):
+        """Elements in *memory* order (numpy's default order="K"): the logical order for a contiguous array, the reverse
+        for a negative-stride view."""
+        a = asarray(a)
+        if _is_scalar(a):
+            return iter([a])
+        if a.ndim != 1:
+            raise Unsupported("np.nditer over a 2-D symbolic array")
+        mem = getattr(a, "_mem", None)
+        if not a.d and "zerosize_ok" not in flags:
+            raise ValueError("Iteration of zero-sized operands is not enabled")
+        return iter([a.d[j] for j in mem] if mem is not None else list(a.d))
 
     def atleast_1d(self, *xs):
         out = []
